@@ -167,8 +167,13 @@ _SHARED = {}
 
 
 def _replay_chunk(args):
-    if len(args) == 2:      # (worker index, work directory): the batch reaches the worker through the fork
-        progs, recs, opts, wdroot = _SHARED['progs'], _SHARED['parts'][args[0]], _SHARED['opts'], args[1]
+    if len(args) == 2:      # (worker index, work directory): programs and options reach the worker through the fork, its
+        # share of the execution records through a file (touching the parent's 10^6 record objects from 14 workers
+        # copies the parent's heap 14 times: reference counts live in the objects)
+        import json as _json
+        with open(os.path.join(args[1], 'part_%d.json' % args[0])) as _f:
+            recs = _json.load(_f)
+        progs, opts, wdroot = _SHARED['progs'], _SHARED['opts'], args[1]
     else:
         progs, recs, opts, wdroot = args
     common.use_repo()
@@ -315,11 +320,21 @@ def replay_all(progs, recs, opts, procs=14, chunk=1500, name='replay'):
     for i, pid in enumerate(sorted(bypid)):      # all executions of one program go to one worker (conversion is per process)
         parts[i % nparts].extend(bypid[pid])
     # keep executions of one program in one chunk where possible (conversion is per process)
-    _SHARED.update(progs=progs, parts=parts, opts=opts)
+    import gc
+    import json as _json
+    for k, part in enumerate(parts):
+        with open(os.path.join(wdroot, 'part_%d.json' % k), 'w') as f:
+            _json.dump(part, f)
+    nparts_ = len(parts)
+    del parts, bypid
+    _SHARED.update(progs=progs, opts=opts)
+    gc.collect()
+    gc.freeze()          # the collector of a forked worker must not write into the parent's objects either
     try:
-        with multiprocessing.get_context('fork').Pool(min(procs, max(1, len(parts)))) as pool:
-            results = pool.map(_replay_chunk, [(k, wdroot) for k in range(len(parts))])
+        with multiprocessing.get_context('fork').Pool(min(procs, max(1, nparts_))) as pool:
+            results = pool.map(_replay_chunk, [(k, wdroot) for k in range(nparts_)])
     finally:
+        gc.unfreeze()
         _SHARED.clear()
     common.rmtree(wdroot)
     div = [d for r in results for d in r['div']]
